@@ -1,5 +1,6 @@
 import EaselModel.Sqio.FetchSpec
 import EaselModel.Sqio.SpecFasta
+import EaselModel.Sqio.InfoSeqSpec
 /-! # Whole-record fetch = scan (C07): `sqascii_Position(roff)` + `sqascii_Read` returns the record the sequential scan yields
 
 `esl_sqio_Fetch` / `PositionByKey` + `Read` (and `esl-sfetch`'s whole-record path) position the handle at the record offset the index
@@ -25,14 +26,16 @@ theorem recL_dropSpace (inmap : Bytes) (N : Nat) (sq : Sq) (l : List UInt8) (c :
   rw [← h, headerL_dropSpace]
   simp [hne, h]
 
-/-- **FETCH (whole record) = SCAN, for every block size** -/
-theorem fetch_eq_scan (bytes : Bytes) (abc : Nat) (habc : abc ∈ [0, 1, 2, 3]) (s : Sq) (hs : s ∈ (parseFasta abc bytes).1)
+/-- after `sqascii_Position(roff)` of a scanned record `s`: the handle is ready, stands on the record's first byte, and the FASTA
+    record parser `recL` on the remaining bytes succeeds with the record `s` -/
+theorem positioned_rec (bytes : Bytes) (abc : Nat) (habc : abc ∈ [0, 1, 2, 3]) (s : Sq) (hs : s ∈ (parseFasta abc bytes).1)
     (a : Ascii) (hf : a.file = bytes) (hb : a.linebased = false) (hr : a.recording ≠ 1) (hB : 1 ≤ a.B)
     (hi : a.inmap = inmapFasta abc) (hfmt : a.fmt = 1) (heof : a.eofIsOk = true)
     (sq : Sq) (hdig : sq.digital = (abc != 0)) (hsabc : sq.abc = abc) (hseq : sq.seq = #[]) (hna : 2 ≤ sq.nalloc) (hda : 2 ≤ sq.dalloc) :
-    (position a s.roff.toNat).2 = .ok ∧
-    (read (position a s.roff.toNat).1 sq).2.2 = .ok ∧
-    toRecord (read (position a s.roff.toNat).1 sq).2.1 = toRecord s := by
+    (position a s.roff.toNat).2 = .ok ∧ Ready (position a s.roff.toNat).1 sq ∧
+    (position a s.roff.toNat).1.inmap = inmapFasta abc ∧ (position a s.roff.toNat).1.file = bytes ∧
+    (recL (inmapFasta abc) bytes.size sq (fileFrom (position a s.roff.toNat).1)).1 = .ok ∧
+    toRecord (recL (inmapFasta abc) bytes.size sq (fileFrom (position a s.roff.toNat).1)).2.1 = toRecord s := by
   obtain ⟨r1, r2, _, _, _, _, _, _⟩ := record_shape bytes abc s hs
   have hlt : s.roff.toNat < a.file.size := by rw [hf]; omega
   obtain ⟨p1, p2, p3, p4, p5, _⟩ := position_full a s.roff.toNat hb hr hB hlt
@@ -45,8 +48,6 @@ theorem fetch_eq_scan (bytes : Bytes) (abc : Nat) (habc : abc ∈ [0, 1, 2, 3]) 
     refine ⟨p2, (stat_fmt p5).trans hfmt, (stat_eofIsOk p5).trans heof, by rw [hi1]; exact (tables_fasta abc habc).1, ?_,
       by rw [hi1]; exact eodGt_fasta abc habc, hna, hda⟩
     rw [mapOf_eq, hi1, hmapSq]; exact mapOk_fasta abc habc
-  obtain ⟨q1, q2, _, _⟩ := read_spec _ sq R
-  rw [hi1, hfile1, p4] at q1 q2
   -- the scan's record
   unfold parseFasta at hs
   obtain ⟨sq', l', suf, hd', ha', hok, hsq⟩ := parseAllL_mem (inmapFasta abc) bytes.size (bytes.size + 2) (freshSq abc) bytes.toList s hs
@@ -92,7 +93,6 @@ theorem fetch_eq_scan (bytes : Bytes) (abc : Nat) (habc : abc ∈ [0, 1, 2, 3]) 
     have := drop_of_suffix sgt
     rw [hN] at this
     rw [hroff]; simpa using this
-  rw [dgt] at q1 q2
   -- both are `specOne` on the same bytes with the same residue map
   have e1 := recL_dropSpace (inmapFasta abc) bytes.size sq l' c l2 h1
   have e2 := recL_dropSpace (inmapFasta abc) bytes.size sq'.reuse l' c l2 h1
@@ -102,12 +102,60 @@ theorem fetch_eq_scan (bytes : Bytes) (abc : Nat) (habc : abc ∈ [0, 1, 2, 3]) 
   rw [hmapSq'] at b1 b2
   have hok2 : (recL (inmapFasta abc) bytes.size sq'.reuse (c :: l2)).1 = .ok := by rw [e2]; exact hok
   have hok1 : (recL (inmapFasta abc) bytes.size sq (c :: l2)).1 = .ok := by rw [a1, ← b1]; exact hok2
-  obtain ⟨m1, _⟩ := q2 hok1
-  refine ⟨p1, by rw [q1]; exact hok1, ?_⟩
-  rw [m1, hsq, ← e2]
+  refine ⟨p1, R, hi1, hfile1, by rw [p4, dgt]; exact hok1, ?_⟩
+  rw [p4, dgt, hsq, ← e2]
   have x1 := (a2 hok1).1
   have x2 := (b2 hok2).1
   rw [x1] at x2
   exact (Option.some.inj x2)
+
+/-- **FETCH (whole record) = SCAN, for every block size** -/
+theorem fetch_eq_scan (bytes : Bytes) (abc : Nat) (habc : abc ∈ [0, 1, 2, 3]) (s : Sq) (hs : s ∈ (parseFasta abc bytes).1)
+    (a : Ascii) (hf : a.file = bytes) (hb : a.linebased = false) (hr : a.recording ≠ 1) (hB : 1 ≤ a.B)
+    (hi : a.inmap = inmapFasta abc) (hfmt : a.fmt = 1) (heof : a.eofIsOk = true)
+    (sq : Sq) (hdig : sq.digital = (abc != 0)) (hsabc : sq.abc = abc) (hseq : sq.seq = #[]) (hna : 2 ≤ sq.nalloc) (hda : 2 ≤ sq.dalloc) :
+    (position a s.roff.toNat).2 = .ok ∧
+    (read (position a s.roff.toNat).1 sq).2.2 = .ok ∧
+    toRecord (read (position a s.roff.toNat).1 sq).2.1 = toRecord s := by
+  obtain ⟨p1, R, hi1, hfile1, hok, hrec⟩ := positioned_rec bytes abc habc s hs a hf hb hr hB hi hfmt heof sq hdig hsabc hseq hna hda
+  obtain ⟨q1, q2, _, _⟩ := read_spec _ sq R
+  rw [hi1, hfile1] at q1 q2
+  exact ⟨p1, by rw [q1]; exact hok, by rw [(q2 hok).1]; exact hrec⟩
+
+/-- **FETCHINFO = the info of the scanned record, for every block size**: `sqascii_Position(roff)` + `sqascii_ReadInfo` — what
+    `esl_sqio_FetchInfo` does — succeeds and returns the name, description, the four offsets and the length `L` of the record the
+    sequential scan yields under that key, and no residues -/
+theorem fetchInfo_eq_scan (bytes : Bytes) (abc : Nat) (habc : abc ∈ [0, 1, 2, 3]) (s : Sq) (hs : s ∈ (parseFasta abc bytes).1)
+    (a : Ascii) (hf : a.file = bytes) (hb : a.linebased = false) (hr : a.recording ≠ 1) (hB : 1 ≤ a.B)
+    (hi : a.inmap = inmapFasta abc) (hfmt : a.fmt = 1) (heof : a.eofIsOk = true)
+    (sq : Sq) (hdig : sq.digital = (abc != 0)) (hsabc : sq.abc = abc) (hseq : sq.seq = #[]) (hna : 2 ≤ sq.nalloc) (hda : 2 ≤ sq.dalloc)
+    (hsa : 2 ≤ sq.salloc) :
+    (position a s.roff.toNat).2 = .ok ∧
+    (readInfo (position a s.roff.toNat).1 sq).2.2 = .ok ∧
+    (readInfo (position a s.roff.toNat).1 sq).2.1.name.toList = s.name.toList ∧
+    (readInfo (position a s.roff.toNat).1 sq).2.1.desc.toList = s.desc.toList ∧
+    (readInfo (position a s.roff.toNat).1 sq).2.1.roff = s.roff ∧ (readInfo (position a s.roff.toNat).1 sq).2.1.hoff = s.hoff ∧
+    (readInfo (position a s.roff.toNat).1 sq).2.1.doff = s.doff ∧ (readInfo (position a s.roff.toNat).1 sq).2.1.eoff = s.eoff ∧
+    (readInfo (position a s.roff.toNat).1 sq).2.1.L = s.L ∧ s.L = (s.seq.size : Int) := by
+  obtain ⟨p1, R, hi1, hfile1, hok, hrec⟩ := positioned_rec bytes abc habc s hs a hf hb hr hB hi hfmt heof sq hdig hsabc hseq hna hda
+  obtain ⟨q1, q2, _, _⟩ := InfoSeqSpec.readInfo_spec _ sq R hsa
+  rw [hi1, hfile1] at q1 q2
+  obtain ⟨i1, _, i3, i4, i5, i6, i7, i8, i9, i10, _⟩ :=
+    InfoSeqSpec.info_seq_agree_L (inmapFasta abc) bytes.size sq sq _ hseq rfl rfl hseq hok
+  obtain ⟨m1, _⟩ := q2 i1
+  have e := hrec
+  simp only [toRecord, Record.mk.injEq] at e
+  obtain ⟨e1, e2, e3, e4, e5, e6, e7, e8⟩ := e
+  have hsz : (recL (inmapFasta abc) bytes.size sq (fileFrom (position a s.roff.toNat).1)).2.1.seq.size = s.seq.size := by
+    rw [← Array.length_toList, e3, Array.length_toList]
+  refine ⟨p1, by rw [q1]; exact i1, ?_, ?_, ?_, ?_, ?_, ?_, ?_, ?_⟩
+  · rw [m1, i3]; exact e1
+  · rw [m1, i4]; exact e2
+  · rw [m1, i5]; exact e4
+  · rw [m1, i6]; exact e5
+  · rw [m1, i7]; exact e6
+  · rw [m1, i8]; exact e7
+  · rw [m1, i9]; exact e8
+  · rw [← e8, ← i9, i10, hsz]
 
 end EaselModel.Sqio.FetchWhole
